@@ -20,8 +20,13 @@ func VerifTargetInfoPath(root string, l *label.Label) string {
 	return p.targetInfoPath(l)
 }
 
-// VerifFileSum is fileSum.
-func VerifFileSum(path string) (string, error) { return fileSum(path) }
+// VerifFileSum is the content sum a source file target computes for the file or directory at path (sourceFile.upToDate,
+// on a throw-away project: whatever function it calls for the sum, and however that function is parameterised).
+func VerifFileSum(path string) (string, error) {
+	f := &sourceFile{proj: &Project{}, path: path}
+	_, _, _, err := f.upToDate()
+	return f.sum, err
+}
 
 // VerifFingerprints returns, for every function target of a loaded project, a digest of the pickled function
 // environment the engine stores as the target's stamp (function.evaluate) and compares in upToDate.
